@@ -1,10 +1,12 @@
 import Acra.Drv.SpecFTI
 import Acra.Drv.SpecFTI2
 import Acra.Drv.SpecSearch
+import Acra.Drv.SpecMpeg
 namespace Acra.Drv
 def specFuncs : List Func := List.flatten [
   specFuncsFTI,
   specFuncsFTI2,
-  specFuncsSearch
+  specFuncsSearch,
+  specFuncsMpeg
 ]
 end Acra.Drv
